@@ -277,6 +277,12 @@ func transformReplay(args []string) {
 					m["publicKeyBase58"] = refBase58([]byte(ed.Pub.(ed25519.PublicKey)))
 				case key.Type == "Ed25519VerificationKey2018" || key.Type == "Ed25519VerificationKey2020":
 					m["publicKeyJwk"] = map[string]interface{}{"kty": "OKP", "crv": "Ed25519", "x": ed.JWK.X}
+
+					// (validated keys may carry further JWK members, of any JSON kind: validation asks for kty, crv and x)
+					if (key.ID+len(c.Keys)+len(key.PP))%2 == 1 {
+						j := m["publicKeyJwk"].(map[string]interface{})
+						j["kid"], j["use"], j["x5c"], j["alg"] = 1, map[string]interface{}{"for": "sig"}, []interface{}{"not a certificate"}, "EdDSA"
+					}
 				default:
 					// JWKs of the three families the document validator accepts, with and without the optional
 					// public members
